@@ -25,6 +25,7 @@ package ztest
 //@ func (sm *ztest.sequenceMatcher) matchingBlocks() (bl []match)
 //@   mathint
 //@   opt assumed = bounded
+//@   pure                                -- part of the assumption: it writes nothing a caller can see (it allocates its own slices and maps)
 //@   ensures BlocksOK(sm.a, sm.b, bl)
 //@   ensures sm.a == old(sm.a) && sm.b == old(sm.b)
 
